@@ -132,5 +132,6 @@ mod utilities;
 /// Access to the denial-of-existence helpers for the verification harness.
 #[cfg(domain_verif)]
 pub mod verif_hooks {
+    pub use super::group::{Group, GroupSet, ValidatedGroup};
     pub use super::nsec::*;
 }
